@@ -52,6 +52,10 @@ pub enum Hint {
     Inexact,
     /// (0, None)
     Unbounded,
+    /// exact hint; NOT fused: polled again after its first None it yields "ghost" elements (ids >= len)
+    ExactNonFused,
+    /// (0, None); not fused
+    UnboundedNonFused,
 }
 
 impl Hint {
@@ -60,6 +64,8 @@ impl Hint {
             "exact" => Hint::Exact,
             "inexact" => Hint::Inexact,
             "unbounded" => Hint::Unbounded,
+            "exact_nf" => Hint::ExactNonFused,
+            "unbounded_nf" => Hint::UnboundedNonFused,
             _ => panic!("bad hint {s}"),
         }
     }
@@ -68,14 +74,22 @@ impl Hint {
             Hint::Exact => "exact",
             Hint::Inexact => "inexact",
             Hint::Unbounded => "unbounded",
+            Hint::ExactNonFused => "exact_nf",
+            Hint::UnboundedNonFused => "unbounded_nf",
         }
     }
     fn of(&self, remaining: usize) -> (usize, Option<usize>) {
         match self {
-            Hint::Exact => (remaining, Some(remaining)),
+            Hint::Exact | Hint::ExactNonFused => (remaining, Some(remaining)),
             Hint::Inexact => (0, Some(remaining + 3)),
-            Hint::Unbounded => (0, None),
+            Hint::Unbounded | Hint::UnboundedNonFused => (0, None),
         }
+    }
+    pub fn is_exact(&self) -> bool {
+        matches!(self, Hint::Exact | Hint::ExactNonFused)
+    }
+    pub fn non_fused(&self) -> bool {
+        matches!(self, Hint::ExactNonFused | Hint::UnboundedNonFused)
     }
 }
 
@@ -123,6 +137,16 @@ fn enter(pos: &mut usize, len: usize) -> bool {
     }
 }
 
+/// `size_hint` reads the cursor: a (read) access to the wrapped iterator outside of `next`
+#[inline]
+fn hint_access() {
+    if PROBE.in_use.load(Relaxed) {
+        PROBE.overlaps.fetch_add(1, Relaxed);
+    }
+    sched::probe_read_access();
+    sched::point(PointKind::User);
+}
+
 #[inline]
 fn leave() {
     PROBE.in_use.store(false, Relaxed);
@@ -139,11 +163,20 @@ pub struct ProbeOwned {
 impl Iterator for ProbeOwned {
     type Item = Tk;
     fn next(&mut self) -> Option<Tk> {
-        let r = if enter(&mut self.pos, self.len) { Some(Tk::new(self.pos - 1, self.salt)) } else { None };
+        let r = if enter(&mut self.pos, self.len) {
+            Some(Tk::new(self.pos - 1, self.salt))
+        } else if self.hint.non_fused() && (2..6).contains(&PROBE.calls_after_none.load(Relaxed)) {
+            // not fused: the first call at the end returns None, the next four return a ghost element each
+            let g = PROBE.calls_after_none.load(Relaxed) as usize - 2;
+            Some(Tk::new(self.len + g, self.salt))
+        } else {
+            None
+        };
         leave();
         r
     }
     fn size_hint(&self) -> (usize, Option<usize>) {
+        hint_access();
         self.hint.of(self.len - self.pos)
     }
 }
@@ -163,6 +196,7 @@ impl<'a> Iterator for ProbeRef<'a> {
         r
     }
     fn size_hint(&self) -> (usize, Option<usize>) {
+        hint_access();
         self.hint.of(self.src.len() - self.pos)
     }
 }
@@ -182,6 +216,7 @@ impl<'a> Iterator for ProbeRefU64<'a> {
         r
     }
     fn size_hint(&self) -> (usize, Option<usize>) {
+        hint_access();
         self.hint.of(self.src.len() - self.pos)
     }
 }
@@ -223,6 +258,9 @@ impl<I: Iterator> Iterator for Traced<I> {
         r
     }
     fn size_hint(&self) -> (usize, Option<usize>) {
+        hint_access();
+        // touch the plain field as well: the race target for Miri / TSan
+        let _ = std::hint::black_box(self.calls);
         self.inner.size_hint()
     }
 }
